@@ -4,7 +4,7 @@ From Coq Require Import ExtrOcamlBasic ZArith List String FMapPositive.
 From HexVerif Require Import WMap Isa SimModel AsmModel AsmLayout AsmSpec AsmStatements CliModel Loader.
 From HexVerif Require Import Vexp RtlSem TbModel.
 From HexVerif.gen Require RtlSv RtlV RtlVSynth RtlHex.
-From HexVerif Require Import XAst XSem IsaMon XCodegenExpr.
+From HexVerif Require Import XAst XSem IsaMon XCodegenExpr XCodegenStmt.
 From HexVerif Require Import XConstProp.
 From HexVerif Require XFront.
 Extraction Language OCaml.
@@ -19,6 +19,6 @@ Separate Extraction WMap.rd WMap.wr WMap.zero WMap.empty WMap.load_words Positiv
   AsmStatements.struct_listing Loader.load_file CliModel.hexasm_main CliModel.xcmp_main CliModel.hexsim_main CliModel.xrun_main
   AsmSpec.check_image AsmSpec.check_symtab AsmSpec.check_listing AsmSpec.decode AsmSpec.bytes_map
   XSem.run XSem.run_fuel XSem.default_fuel XSem.default_steps XSem.default_depth
-  IsaMon.accesses IsaMon.acc_ok IsaMon.state_ok IsaMon.mon_ok XCodegenExpr.cg XCodegenExpr.frame_venv XCodegenExpr.first_temp
+  IsaMon.accesses IsaMon.acc_ok IsaMon.state_ok IsaMon.mon_ok XCodegenExpr.cg XCodegenExpr.frame_venv XCodegenExpr.first_temp XCodegenStmt.cproc
   XConstProp.tree XConstProp.tree_opt XConstProp.front XConstProp.repo_arith XConstProp.repo_rejects_nonconst_val XConstProp.gen_const
   XFront.lex XFront.front_located XFront.front XFront.diag_message.
